@@ -58,8 +58,18 @@ RULE = (
     "patterns through compress() and 5 chains, string tables whose offsets / indices cross 8 and 16 bit, decimal "
     "places 0..25 for compress(), 9/10/11/99/100/101 blocks, categories, columns; 'lazy' = all 64 subsets of 6 "
     "forcing actions on a file that was read x 2 insertion orders: keys, == and != in both directions against the "
-    "written object, an untouched second reading and 7 perturbed files, and the file written again. A case counts "
-    "as non-trivial when the array is "
+    "written object, an untouched second reading and 7 perturbed files, and the file written again; 'identity' = "
+    "compress() at 5 levels x 5 file shapes (incl. no blocks / empty block / single values / uncompressible) x "
+    "{plain, already compressed operand}: result is a new object of the same type and re-binding edits of it leave "
+    "the operand's keys and written bytes unchanged; 'values' = every value the anchored code branches on that no "
+    "palette holds (byte_count outside {1,2}, unknown type codes / encoding kinds / malformed encoding "
+    "descriptions, compress() of unsupported types, float16 / longdouble / bool / bytes / complex / datetime "
+    "arrays, mask values outside the enum) and integers / strings that combine two awkward features (negative x "
+    "exact multiple of a packing limit, non-ASCII x longer than 255, astral x blank, quotes, control characters); "
+    "'derived' = arrays / columns the library hands out (decoded through default / chain / compress, as_array "
+    "variants, column of a read file) fed into default / chain / compress / a masked column of a new compressed "
+    "file; reuse additionally walks A -> B -> A (encodings and category columns) and reads row_count between the "
+    "steps. A case counts as non-trivial when the array is "
     "non-empty and the oracle either compared a decoded non-empty array element-wise with the original or "
     "observed the refusal of a value that the model says the representation cannot hold."
 )
